@@ -126,3 +126,88 @@ def parseMdns (addrs : List (AddrKind × String)) (props : List (String × Optio
       | _, _, _, _, _ => none
 
 end HapVerif.Waiters
+
+/-! # Below the quiescence abstraction: waiter futures inside one event-loop iteration
+
+`Task.cancel()` (or the waiter's own timeout) completes the waiter's future AT ONCE; the `finally` / `except` of
+`async_find` that unregisters it only runs when its task runs, at the next loop iteration.  An advertisement processed
+in between meets a registered future that is already done: the callbacks guard `set_result` with `not future.done()`. -/
+
+namespace HapVerif.Waiters.Micro
+
+inductive FutState
+  | pending
+  | cancelled        -- `Task.cancel()`: done, task not yet run
+  | timedOut         -- the timeout fired: done, task not yet run
+  | resolved         -- holds the discovery: done, task not yet run
+  deriving DecidableEq, Repr
+
+inductive Outcome
+  | found
+  | notFound
+  | cancelled
+  deriving DecidableEq, Repr
+
+structure Entry where
+  k : Nat
+  id : Nat
+  st : FutState
+  registered : Bool      -- still in `_waiters[id]` / `_ble_futures[id]`
+  deriving DecidableEq, Repr
+
+structure St where
+  discovered : List Nat := []
+  entries : List Entry := []          -- waiters whose task has not finished
+  done : List (Nat × Outcome) := []
+  raised : Bool := false              -- an exception escaped a callback
+  deriving DecidableEq, Repr
+
+/-- `future.set_result(discovery)` on a future that is already done raises `InvalidStateError` -/
+def setResult (e : Entry) : Except Unit Entry :=
+  if e.st = .pending then .ok { e with st := .resolved } else .error ()
+
+/-- the advertisement callback on one registered future: it gets the discovery unless it is already done (the guard
+    `if not future.done()`); the second component says whether `set_result` raised -/
+def wake (id : Nat) (e : Entry) : Entry × Bool :=
+  if e.id = id ∧ e.registered then
+    if e.st = .pending then
+      match setResult e with
+      | .ok x => ({ x with registered := false }, false)
+      | .error _ => ({ e with registered := false }, true)
+    else ({ e with registered := false }, false)
+  else (e, false)
+
+/-- the loop runs: every task whose future is done finishes with its outcome (and unregisters itself) -/
+def settle (s : St) : St :=
+  let fin := s.entries.filter (fun e => e.st ≠ .pending)
+  { s with entries := s.entries.filter (fun e => e.st = .pending),
+           done := s.done ++ fin.map (fun e => (e.k, match e.st with
+             | .resolved => Outcome.found | .timedOut => .notFound | _ => .cancelled)) }
+
+inductive Ev
+  | start (k id : Nat)      -- a task calls `async_find` (the loop runs)
+  | adv (id : Nat)          -- an advertisement for `id` is processed; the loop does NOT run
+  | cancel (k : Nat)        -- `task.cancel()`; the loop does NOT run
+  | timeout (k : Nat)       -- the waiter's timer fires; the loop does NOT run
+  | tick                    -- the loop runs
+  deriving DecidableEq, Repr
+
+def step (s : St) : Ev → St
+  | .start k id =>
+    let s := settle s
+    if id ∈ s.discovered then { s with done := s.done ++ [(k, .found)] }
+    else { s with entries := s.entries ++ [⟨k, id, .pending, true⟩] }
+  | .adv id =>
+    { s with discovered := if id ∈ s.discovered then s.discovered else s.discovered ++ [id],
+             entries := s.entries.map (fun e => (wake id e).1),
+             raised := s.raised || s.entries.any (fun e => (wake id e).2) }
+  | .cancel k =>
+    -- a task whose future already holds the discovery but has not run yet is cancelled all the same
+    { s with entries := s.entries.map (fun e => if e.k = k then { e with st := .cancelled } else e) }
+  | .timeout k =>
+    { s with entries := s.entries.map (fun e => if e.k = k ∧ e.st = .pending then { e with st := .timedOut } else e) }
+  | .tick => settle s
+
+def run (s : St) (evs : List Ev) : St := evs.foldl step s
+
+end HapVerif.Waiters.Micro
